@@ -64,11 +64,24 @@ pub fn run(args: &Args, r: &mut Report) {
         if rng.chance(1, 6) {
             add_duplicate_ids(&mut case, &mut rng);
         }
+        // in a quarter of the cases an embedder task takes the shared storage and app-set locks (in the
+        // library's own order, storage first) at arbitrary points of the flow
+        if rng.chance(1, 4) {
+            case.embedder_rate = 5;
+        }
         let run = run_case(&case, &mut rng);
         r.eval(case.shape_key(), case.nontrivial);
         r.interleavings.insert(run.sig);
         let mut m = Mon::default();
         mon_c04(&run.flow, &case.setup, &mut m);
+        if case.embedder_rate > 0 {
+            let g = crate::sim::world::lock(&run.w);
+            let dead = g.log.iter().find(|x| matches!(x.ev, crate::sim::world::Ev::ObserverBlocked { on: "deadlock-with-embedder" }));
+            m.judge("c04-flow-completes-with-embedder-task", dead.is_none() && run.end != crate::sim::driver::RunEnd::Blocked, "", || {
+                format!("run ended {:?}: the machine and an embedder task that locks storage then the app set wait for each other (seq {:?})", run.end, dead.map(|d| d.seq))
+            });
+            r.count("embedder-touches", g.log.iter().filter(|x| matches!(x.ev, crate::sim::world::Ev::EmbedderTouched)).count() as u64);
+        }
         if let Some(p) = &run.panicked {
             report_panic(r, args, i, p, &run.w, case_desc(&case));
         }
